@@ -90,3 +90,8 @@ func (st *StateDB) VerifC10CopyInfo() VerifC10CopyInfo {
 	}
 	return r
 }
+
+// VerifC10Roots hashes the three tries as they are (no flush).
+func (st *StateDB) VerifC10Roots() [3]common.Hash {
+	return [3]common.Hash{st.trie.Hash(), st.valTrie.Hash(), st.stakingTrie.Hash()}
+}
